@@ -61,7 +61,14 @@ func runC02(c *fw.Ctx) {
 				}
 				k.Count("cases_"+in.Op, 1)
 				k.Sample()
-				if gradCheck(k, in, xs, mask, g, "") && k.Index%25 == 0 && ref.Prod(y.Shape) <= 32 {
+				moderate := true // central differences with h = 1e-6 only make sense for operands of ordinary magnitude
+				for _, x := range xs {
+					moderate = moderate && minAbs(x) > 1e-3 && maxAbs(x) < 1e3
+				}
+				if in.Op == "pow" {
+					moderate = moderate && minAbs(xs[0]) > 0.05
+				}
+				if gradCheck(k, in, xs, mask, g, "") && moderate && k.Index%25 == 0 && ref.Prod(y.Shape) <= 32 {
 					for i := range xs {
 						if mask[i] && len(xs[i].Data) <= 32 {
 							k.Count("cross_oracle_checks", 1)
